@@ -31,7 +31,12 @@ SPECIAL = ['nan', 'inf', '-inf', 'NaN', '1e5', '0x1F', 'TB0Z', 'tb0z', 'None', '
 RARE_WS = ['\x0b', '\x0c', '\x1c', '\x1f']     # white space for str.isspace()/\\s, but neither blank nor tab
 
 
+NONASCII = ['Jos\u00e9 N\u00fa\u00f1ez', '\u00b5m', 'na\u00efve', '\u65e5\u672c', '\u03a9', 'caf\u00e9 # bar']
+
+
 def rstr(r, maxlen, header=False):
+    if header and r.random() < 0.08:
+        return r.choice(NONASCII[:5])       # keyword values only: table strings are byte strings
     if r.random() < 0.12:
         sp = [x for x in SPECIAL if len(x) <= maxlen and not x.startswith('{')]
         if sp:
